@@ -326,6 +326,27 @@ for _n in (1, 2):
     _mk_export(_n)
 
 
+# ... and with a sample routine in the table (combine_stereo returns a NEW list): the batch written is what the routine returned, and the
+# manager's OWN list is what gets emptied - otherwise the level's samples would still be there when the next level is finished.
+@contract(S + "sample_routine#abstract", abstract=True, assumed=False, note="a sample routine of the table (combine_stereo_routine is under contract): returns a new list of one sample")
+def _sr_abs(c):
+    c.param("samples", ("drop",))
+    c.returns(("clist", [WSAMPLE]))
+    c.modifies()
+
+
+@contract(S + "ExportManager.export_samples[n=2,one-routine]", source_key=S + "ExportManager.export_samples", props=["C06", "C01", "C05"], proof_only=True)
+def _es_routine(c):
+    c.self_obj(("self", S.rstrip(":") + ":ExportManager", {"output_directory": "str", "routines": ("cdict", {"combine_stereo": ("obj", "RoutineToken", {})}), "level": ("drop",),
+                                                            "samples": ("clist", [WSAMPLE] * 2)}))
+    c.abstract_calls = {"os.path.join": "os.path:join2#abstract", "os.path.dirname": "os.path:dirname#abstract", "os.path.exists": "os.path:exists#abstract",
+                        "os.makedirs": "os:makedirs#abstract", "export_wav": "smpl_extract.generalized.wav:export_wav#record", "print": "builtins:print#record",
+                        "f_routine": S + "sample_routine#abstract"}
+    c.use = {S + "ExportManager.make_output_path": S + "ExportManager.make_output_path#pure"}
+    c.ensures("len(self.samples) == 0", "the-manager's-own-batch-is-emptied-whatever-list-the-routine-returned")
+    c.modifies("self.samples")
+
+
 @contract("lemma:counted_names_differ_for_different_counts", props=["C06", "C10", "C05"], lemma_module="smpl_extract.structural",
           lemma_deps=[S + "Image._add_count_to_name"],
           lemma_src="def two(img, name, a, b):\n    return (img._add_count_to_name(name, a), img._add_count_to_name(name, b))\n")
@@ -339,3 +360,77 @@ def _inj(c):
     c.use = {S + "Image._add_count_to_name": "inline"}
     c.requires("a >= 0 and b >= 0 and a != b")
     c.ensures("result[0] != result[1]", "different-counters-give-different-names")
+
+
+# ================================================================================================== C01 / C02 / C05: one directory level handed to the export manager
+# Traversable.export_samples for a level whose children are all samples (an AKAI volume, a Roland performance, a CDDA image): the level
+# is announced with the node's path, the generalized form of EVERY sample child is added in directory order, and the level is finished
+# exactly once with exactly that batch - no sample dropped, none added twice, none carried over from (or left for) another level.  For a
+# level of sub-directories (partition, volume list): each sub-directory is exported in order and the level itself contributes an empty batch.
+# set_level / add_sample / finish_level are the real methods (inlined); the batch export itself (ExportManager.export_samples, under
+# contract above) is replaced by a recorder.
+_GS = "int"          # a generalized sample, identified by the number of the element it was made from
+
+
+@contract(S + "SampleElement.to_generalized#tag", abstract=True, assumed=False,
+          note="the generalized sample of a sample element (AkaiSample / SampleFile / AudioTrack .to_generalized are under contract of their own); identified by the element")
+def _tg_tag(c):
+    c.binds_receiver = True
+    c.returns(_GS)
+    c.ensures("result == self.gid")
+    c.modifies()
+
+
+@contract(S + "ExportManager.export_samples#recorder", abstract=True, assumed=False,
+          note="ExportManager.export_samples (under contract: ExportManager.export_samples[n]) - here it records the batch it is called with and empties it")
+def _es_rec(c):
+    c.binds_receiver = True
+    c.ensures("self.batches == old(self.batches) + 1 and self.last_len == old(len(self.samples)) and len(self.samples) == 0")
+    c.ensures("forall(0, old(len(self.samples)), lambda i: uf_int('batch_entry', self.batches, i) == old(self.samples)[i])")
+    c.modifies("self.batches", "self.last_len", "self.samples")
+
+
+@contract(S + "Traversable.export_samples#sub-directory", abstract=True, assumed=False,
+          note="the recursive call on a sub-directory (same function, one level down): finishes some levels of its own and leaves the manager between levels")
+def _es_sub(c):
+    c.binds_receiver = True
+    c.param("export_manager", ("drop",))
+    c.ensures("export_manager.batches == old(export_manager.batches) + uf_int('levels_at_and_below', self.gid) and uf_int('levels_at_and_below', self.gid) >= 1")
+    c.ensures("len(export_manager.samples) == 0")
+    c.modifies("export_manager.batches", "export_manager.last_len", "export_manager.samples", "export_manager.level")
+
+
+_MGR = ("obj", "smpl_extract.structural:ExportManager", {"output_directory": "str", "routines": ("cdict", {}), "level": ("drop",), "samples": ("clist", [_GS]),          # one stale entry left by an earlier level
+                                                          "batches": "int", "last_len": "int"})
+
+
+def _mk_level(kind, n):
+    if kind == "samples":
+        kid = lambda: ("obj", "smpl_extract.structural:SampleElement", {"gid": "int", "type_id": ("const", 2)})
+    else:
+        kid = lambda: ("obj", "smpl_extract.structural:Traversable", {"gid": "int", "type_id": ("const", 1)})
+
+    @contract(S + f"Traversable.export_samples[{kind}={n}]", source_key=S + "Traversable.export_samples", props=["C01", "C02", "C05", "C03"], proof_only=True)
+    def _lvl(c):
+        c.self_obj(("self", "smpl_extract.structural:Traversable", {"_children": ("clist", [kid() for _ in range(n)]), "_routines": ("cdict", {}),
+                                                                    "_f_realize_children": ("obj", "MustNotBeCalled", {}), "_path": ("clist", ["str"])}))
+        c.param("export_manager", _MGR)
+        c.use = {S + "Traversable.children": "inline", "smpl_extract.base:Element.path": "inline", S + "ExportManager.set_level": "inline",
+                 S + "ExportManager.add_sample": "inline", S + "ExportManager.finish_level": "inline",
+                 S + "ExportManager.export_samples": S + "ExportManager.export_samples#recorder"}
+        c.abstract_calls = {"child.to_generalized": S + "SampleElement.to_generalized#tag", "child.export_samples": S + "Traversable.export_samples#sub-directory"}
+        if kind == "samples":
+            c.ensures(f"export_manager.batches == old(export_manager.batches) + 1 and export_manager.last_len == {n}", "the-level-is-finished-once-with-one-entry-per-sample-child")
+            for i in range(n):
+                c.ensures(f"uf_int('batch_entry', export_manager.batches, {i}) == self._children[{i}].gid", f"entry-{i}-of-the-batch-is-the-generalized-sample-of-child-{i}")
+        else:
+            below = " + ".join(f"uf_int('levels_at_and_below', self._children[{i}].gid)" for i in range(n)) or "0"
+            c.ensures(f"export_manager.batches == old(export_manager.batches) + {below} + 1 and export_manager.last_len == 0",
+                      "every-sub-directory-is-exported-and-the-level-itself-adds-an-empty-batch")
+        c.ensures("len(export_manager.samples) == 0", "nothing-is-left-in-the-manager-for-the-next-level")
+        c.modifies("export_manager.batches", "export_manager.last_len", "export_manager.samples", "export_manager.level")
+    return _lvl
+
+
+for _k, _n in (("samples", 0), ("samples", 1), ("samples", 2), ("directories", 1), ("directories", 2)):
+    _mk_level(_k, _n)
